@@ -7,7 +7,7 @@
    [owner_of], [get_approved], [is_approved_for_all] - the same functions whose values the
    correspondence run compares with the real contracts after every call. *)
 From SC Require Import Lib.Prelude Lib.Int Lib.Host Model.Nft Run.NftCommon Proofs.NftMaps Proofs.NftFrame
-  Proofs.NftInv Proofs.NftCons Proofs.NftOwn Proofs.NftSim Proofs.NftScope Proofs.C11Final Run.C11 Proofs.C11Monitor.
+  Proofs.NftInv Proofs.NftCons Proofs.NftOwn Proofs.NftSim Proofs.NftScope Proofs.C11Final Proofs.C11Special Run.C11 Proofs.C11Monitor.
 Local Open Scope N_scope.
 
 (* In EVERY state (not only reachable ones), for the three flavours: a transfer or burn that
@@ -37,6 +37,32 @@ Theorem C11_approve_for_all_authority : forall fl c s auths o op lu s' r,
   exec fl c s (ApproveForAll auths o op lu) = Ok (s', r) -> In o auths.
 Proof. exact approve_for_all_authority. Qed.
 Print Assumptions C11_approve_for_all_authority.
+
+(* NOBODY IS EXEMPT.  Whatever address a call names as the party that has to authorise it (the `from` of
+   transfer / burn, the spender of transfer_from / burn_from, the approver, the appointing owner) - be it the
+   token contract's own address, another contract, a classic account, the current owner of the token - the call
+   fails in EVERY state unless that very address is in the call's authorisation set; a call nobody authorised
+   changes nothing.  (Tokens held by the contract itself do not move on an unsigned call.) *)
+Theorem C11_nobody_is_exempt : forall fl c s cl x,
+  match cl with
+  | Transfer _ from _ _ | Burn _ from _ => Some from
+  | TransferFrom _ spender _ _ _ | BurnFrom _ spender _ _ => Some spender
+  | Approve _ approver _ _ _ => Some approver
+  | ApproveForAll _ o _ _ => Some o
+  | Advance _ | MintSeq _ | MintId _ _ | BatchMint _ _ => None
+  end = Some x ->
+  ~ In x match cl with
+         | Transfer a _ _ _ | TransferFrom a _ _ _ _ | Burn a _ _ | BurnFrom a _ _ _ | Approve a _ _ _ _
+         | ApproveForAll a _ _ _ => a
+         | Advance _ | MintSeq _ | MintId _ _ | BatchMint _ _ => []
+         end ->
+  exec fl c s cl = Fail.
+Proof. exact signer_must_sign. Qed.
+Print Assumptions C11_nobody_is_exempt.
+Theorem C11_unsigned_call_changes_nothing : forall fl c s cl,
+  signer cl <> None -> auths_of cl = [] -> step fl c s cl = (s, Fail).
+Proof. exact unsigned_call_fails. Qed.
+Print Assumptions C11_unsigned_call_changes_nothing.
 
 (* any successful transfer or burn clears the token's individual approval (all flavours; for the
    consecutive one this is the clearing through NFTConsecutiveStorageKey::Approval) *)
@@ -238,6 +264,28 @@ Example C11_monitor_rejects_malformed_traces :
   monitor (mkTrace FCons c0 10 true
     [(BatchMint 0 3, Ok (Some 2), mkObs 3 (idx [Some 0; Some 0; Some 0; None; None; None]) [] (idx [@None addr; None; None; None; None; None]) [] 0 [] []);
      (BatchMint 1 3, Ok (Some 2), mkObs 3 (idx [Some 1; Some 1; Some 1; None; None; None]) [] (idx [@None addr; None; None; None; None; None]) [] 0 [] [])]) = 2.
+Proof. vm_compute. repeat split. Qed.
+
+(* special members of the address universe (7 = the token contract's own address, say): the model refuses the
+   unsigned transfer / burn / approval of a token the contract itself holds, and the monitor rejects a trace in
+   which such a call succeeded - also when the recipient, or everybody but the holder, signed *)
+Example C11_contract_held_token_needs_the_contract_to_sign :
+  let s := run FBase c0 (init 10) [MintSeq 7] in
+  owner_of FBase c0 s 0 = Some 7 /\
+  (map (fun cl => is_ok (snd (step FBase c0 s cl)))
+      [Transfer [] 7 2 0; Transfer [2] 7 2 0; TransferFrom [] 7 7 2 0; TransferFrom [2] 2 7 2 0; Burn [] 7 0;
+       BurnFrom [1; 2] 2 7 0; Approve [] 7 2 0 40%Z; ApproveForAll [2] 7 2 40%Z; Transfer [7] 7 2 0])
+  = [false; false; false; false; false; false; false; false; true] /\
+  monitor (hdr [(MintSeq 7, Ok (Some 0), ob1 (Some 7) None []);
+                (Transfer [] 7 2 0, Ok None, ob1 (Some 2) None [])]) = 2 /\
+  monitor (hdr [(MintSeq 7, Ok (Some 0), ob1 (Some 7) None []);
+                (Transfer [1; 2] 7 2 0, Ok None, ob1 (Some 2) None [])]) = 2 /\
+  monitor (hdr [(MintSeq 7, Ok (Some 0), ob1 (Some 7) None []);
+                (Approve [] 7 2 0 40%Z, Ok None, ob1 (Some 7) (Some 2) [])]) = 2 /\
+  monitor (hdr [(MintSeq 7, Ok (Some 0), ob1 (Some 7) None []);
+                (ApproveForAll [] 7 2 40%Z, Ok None, ob1 (Some 7) None [((7, 2), true)])]) = 2 /\
+  monitor (hdr [(MintSeq 7, Ok (Some 0), ob1 (Some 7) None []);
+                (Transfer [] 7 2 0, Fail, ob1 (Some 7) None [])]) = 0.
 Proof. vm_compute. repeat split. Qed.
 
 (* THE BOUNDARY OF THE QUANTIFIER (documented caveat of the library: uniqueness of explicit ids is the
